@@ -13,7 +13,7 @@ LEVEL = "exploration"
 SHARDS = {"quick": 8, "thorough": 16}
 RULE = ("cases: (a) enc: msmart _Packet.encode(id, frame) decoded by the independent V2 decoder; (b) dec: packets built by "
         "the independent encoder (varying message id, timestamp, magic, reserved bytes) decoded by _Packet.decode; (c) send: "
-        "LAN.send on a V2 connection against the model device. Sweep of all frame lengths 0..255 x boundary ids, plus "
+        "LAN.send on a V2 connection against the model device, optionally with the first transmissions lost (retransmissions must decode too) and after another LAN object with a different id sent the same frame. Sweep of all frame lengths 0..255 x boundary ids, plus "
         "Hypothesis-generated frames/ids/clock values. Non-trivial: len(frame)>=1 and (len%16 in {0,15} or id>=2^32 or "
         "frame contains 5A5A). Distinct by (kind, frame, id).")
 ASSUMPTIONS = ["AES block primitive, MD5 shared with the code under test (trusted base)",
@@ -73,10 +73,22 @@ def check_case(case: dict):
             loop.wall_skew = case.get("ts", 0.0)
             dev = SimDevice(loop, version=2, device_id=case.get("reply_id", dev_id), ac=ModelAC())
             dev.default_action = ("frames", replies, {})
+            # the first transmissions of the exchange may get lost: every retransmission must be a valid packet too
+            dev.script = [("drop",)] * case.get("drop_first", 0)
+            other_id = case.get("other_id")
+            if other_id is not None:
+                # another device object in the same process sent the same frame earlier
+                dev2 = SimDevice(loop, version=2, device_id=other_id, ac=ModelAC())
+                dev2.default_action = ("frames", [b"\xaa\x00"], {})
+                net.listen("10.0.0.8", 6444, dev2)
+                lan2 = LAN("10.0.0.8", 6444, other_id)
+                await lan2.send(frame, retries=1)
+                lan2._disconnect()
+                out["tx2"] = list(dev2.transmissions)
             net.listen("10.0.0.9", 6444, dev)
             lan = LAN("10.0.0.9", 6444, dev_id)
             try:
-                out["frames"] = await lan.send(frame, retries=1)
+                out["frames"] = await lan.send(frame, retries=1 + case.get("drop_first", 0))
             except Exception as e:
                 out["exc"] = e
             out["tx"] = list(dev.transmissions)
@@ -90,13 +102,16 @@ def check_case(case: dict):
                 return ("send/no-timeout", f"expected TimeoutError, got {out.get('exc')!r} / {out.get('frames')}")
         elif "exc" in out:
             return (f"send/raises/{type(out['exc']).__name__}", f"LAN.send raised {out['exc']!r}; device log {out['log']}")
-        if len(out["tx"]) != 1:
-            return ("send/tx-count", f"device decoded {len(out['tx'])} transmissions; log {out['log']}")
-        _t, _c, rx_frame, rx_id = out["tx"][0]
-        if rx_frame != frame:
-            return ("send/frame-differs", f"device received frame {rx_frame.hex()} != {frame.hex()}")
-        if rx_id != dev_id:
-            return ("send/id-differs", f"device received id {rx_id:#x} != {dev_id:#x}")
+        want_tx = 1 + case.get("drop_first", 0)
+        if len(out["tx"]) != want_tx:
+            return ("send/tx-count", f"device decoded {len(out['tx'])} of {want_tx} transmissions; log {out['log']}")
+        for _t, _c, rx_frame, rx_id in out["tx"]:
+            if rx_frame != frame:
+                return ("send/frame-differs", f"device received frame {rx_frame.hex()} != {frame.hex()}")
+            if rx_id != dev_id:
+                return ("send/id-differs", f"device received id {rx_id:#x} != {dev_id:#x}")
+        if "tx2" in out and (len(out["tx2"]) != 1 or out["tx2"][0][3] != case["other_id"] or out["tx2"][0][2] != frame):
+            return ("send/other-device", f"the other device received {[(t[2].hex(), t[3]) for t in out['tx2']]}")
         if replies and [bytes(f) for f in out["frames"]] != replies:
             return ("send/replies-differ", f"send returned {[bytes(f).hex() for f in out['frames']]} != {case['replies']}")
         return None
@@ -148,7 +163,7 @@ def run(ctx) -> None:
     send_cases = st.fixed_dictionaries({
         "kind": st.just("send"), "frame": hexb(gens.frames_bytes(255)), "id": gens.device_ids(64),
         "replies": st.lists(hexb(gens.frames_bytes(120)), min_size=0, max_size=3),
-        "ts": st.floats(min_value=0, max_value=1e9, allow_nan=False)})
+        "ts": st.floats(min_value=0, max_value=1e9, allow_nan=False)}, optional={"drop_first": st.integers(0, 2), "other_id": gens.device_ids(64)})
 
     def runner(case):
         return _run_one(ctx, case)
